@@ -67,6 +67,8 @@ pub struct SignatureContext<'a> {
 
     pub decoded_uri_path: String,
     pub vh_bucket: Option<&'a str>,
+    /// a `POST` addressed to a bucket: the only request that can be a browser form upload (POST Object)
+    pub is_bucket_post: bool,
 
     pub content_length: Option<u64>,
     pub mime: Option<Mime>,
@@ -105,7 +107,7 @@ impl SignatureContext<'_> {
     #[tracing::instrument(skip(self))]
     pub async fn v4_check(&mut self) -> Option<S3Result<CredentialsExt>> {
         // POST auth
-        if self.req_method == Method::POST {
+        if self.is_bucket_post {
             if let Some(ref mime) = self.mime {
                 if mime.type_() == mime::MULTIPART && mime.subtype() == mime::FORM_DATA {
                     debug!("checking post signature");
